@@ -245,6 +245,7 @@ func (a *Analysis) AllResults() []*TypeResult {
 func (a *Analysis) encLayout(ct *CodecType, p *Path) *PathLayout {
 	c := &layoutCtx{u: a.U, ct: ct, path: p}
 	fs := c.extractEnc(p.Events)
+	fs = a.collapseNestedRuns(ct, c, fs, true)
 	pl := &PathLayout{Path: p, Layout: &Layout{Fields: fs}, Conds: condString(p.Conds)}
 	stores := storeTargets(p.Events)
 	// objects materialised on this path: which field received them
@@ -373,14 +374,17 @@ func fieldAfterMarker(evs []*Event, fs []*FieldLayout, marker int) *FieldLayout 
 
 func (a *Analysis) decLayout(ct *CodecType, p *Path) *PathLayout {
 	c := &layoutCtx{u: a.U, ct: ct, path: p}
-	var stores []*Event
+	var stores, nestedStores []*Event
 	for _, e := range p.Events {
 		if e.Kind == EvStore {
 			if _, ok := recvFieldAddr(e.Dst); ok {
 				stores = append(stores, e)
+			} else if _, _, ok := nestedFieldAddr(e.Dst); ok {
+				nestedStores = append(nestedStores, e)
 			}
 		}
 	}
+	c.nested = map[string][2]int{}
 	sink := func(ids []int, loop int) (string, int, *Val, bool) {
 		for _, st := range stores {
 			idx, _ := recvFieldAddr(st.Dst)
@@ -397,9 +401,29 @@ func (a *Analysis) decLayout(ct *CodecType, p *Path) *PathLayout {
 				return c.fieldName(idx), idx, src, true
 			}
 		}
+		// a field of a nested part read inline (named X.#i until the run is recognised as the part's own layout)
+		for _, st := range nestedStores {
+			o, in, _ := nestedFieldAddr(st.Dst)
+			src := st.Src
+			if len(st.Args) == 1 && st.Args[0] != nil {
+				src = st.Args[0]
+			}
+			hit := loop != 0 && containsCollect(src, loop)
+			for _, id := range ids {
+				if containsWire(src, id) {
+					hit = true
+				}
+			}
+			if hit {
+				name := fmt.Sprintf("%s.#%d", c.fieldName(o), in)
+				c.nested[name] = [2]int{o, in}
+				return name, o, src, true
+			}
+		}
 		return "", -1, nil, false
 	}
 	fs := c.extractDec(p.Events, sink)
+	fs = a.collapseNestedRuns(ct, c, fs, false)
 	for _, f := range fs {
 		if (f.Kind == "dyn" || f.Kind == "obj") && f.GoField < 0 && f.RecvVal != nil {
 			for _, st := range stores {
@@ -483,4 +507,42 @@ func stripSameWidth(v *Val) *Val {
 		v = in
 	}
 	return v
+}
+
+// collapseNestedRuns: see collapseNested. The nested part's own layout is that of its Encode / Decode method.
+func (a *Analysis) collapseNestedRuns(ct *CodecType, c *layoutCtx, fs []*FieldLayout, enc bool) []*FieldLayout {
+	if len(c.nested) == 0 {
+		return fs
+	}
+	nestedOf := func(f *FieldLayout) (int, int, bool) {
+		oi, ok := c.nested[f.Name]
+		return oi[0], oi[1], ok
+	}
+	layoutOf := func(outer int) (string, string, []*FieldLayout) {
+		if outer < 0 || outer >= ct.Struct.NumFields() {
+			return "", "", nil
+		}
+		nct := a.U.TypeOf(ct.Struct.Field(outer).Type())
+		if nct == nil || nct == ct {
+			return "", "", nil
+		}
+		tl := a.Layouts(nct)
+		var pl *PathLayout
+		if enc {
+			pl = tl.EncMain
+			if len(tl.EncAll) != 1 {
+				pl = nil // only parts with a single rendering are recognised inline
+			}
+		} else {
+			pl = tl.DecMain
+			if len(tl.R.Dec) != 1 {
+				pl = nil
+			}
+		}
+		if pl == nil {
+			return "", "", nil
+		}
+		return nct.Name, c.fieldName(outer), pl.Layout.Fields
+	}
+	return collapseNested(fs, nestedOf, layoutOf)
 }
